@@ -11,6 +11,9 @@ def check(ctx):
     # finite error bars for constant / strictly periodic records: the scatter must not go negative by cancellation (sqrt -> NaN)
     from .c11 import check_never_negative
     check_never_negative(ctx, rule="R7-scatter-never-negative")
+    # the assembled statistics are made finite on every path of compute() (overflowing segment powers of huge finite samples)
+    from ..dispatch import check_statistics_finite
+    check_statistics_finite(ctx)
     ctx.trust("E7 aliasing rows (asarray/ascontiguousarray/.T/basic slices alias; arithmetic, fancy indexing, nan_to_num(copy=True) are fresh)",
               "np.nan_to_num keyword defaults (posinf/neginf default to +-1.8e308, not 0)")
     ctx.assume("exact arithmetic: dtype/stride independence of the numbers and float underflow are not decided")
@@ -18,4 +21,6 @@ def check(ctx):
             "record to a kernel, and effect summaries (writes-param / returns-alias) of all kernels and helpers over the call graph. __init__ is "
             "abstractly interpreted for the layouts 2xN, Nx2, 2x2 and 1-D: channel c is row/column c of the input, and on the path where the record "
             "holds NaN/Inf the channel views are views of the array sanitised with nan=posinf=neginf=0. Each guarded quotient of the attribute table "
-            "is guarded by the non-vanishing of exactly its divisor, with a zero fallback. Data-path dtype conversions are float64/int64.")
+            "is guarded by the non-vanishing of exactly its divisor, with a zero fallback. Data-path dtype conversions are float64/int64. "
+            "In compute() every data statistic of the result (XX, YY, XY, M2) passes through nan_to_num with zero fills, or a finiteness test of that very "
+            "array, on every path (effects of helpers with conditional early returns included).")
